@@ -31,7 +31,7 @@ package mock
 //@   prop C10
 //@   havoc
 //@   stable ch
-//@   requires ghost.chanclosed[ch] == 0
+//@   requires ch != nil && ghost.chanclosed[ch] == 0
 //@   modifies ghost.*
 //@   ensures [delivers_exactly_one_outcome] ghost.chansent[ch] == old(ghost.chansent[ch]) + 1
 //@   ensures [closes_the_channel] ghost.chanclosed[ch] == 1
